@@ -44,6 +44,24 @@ def corpus_G(prop):
     return load("G_" + prop)
 
 
+FAM_TRAIT = {"C08": "cleanup", "C09": "unused", "C10": "duplication", "C11": "symmetry", "C12": "minmax_chains", "C13": "sum_chains",
+             "C14": "math", "C15": "inline", "C16": "projection"}
+G_PASS_FAMILIES = ["C05", "C08", "C09", "C10", "C11", "C12", "C13", "C14", "C15", "C16"]
+
+
+def corpus_G_all(tier, seed, stride=3, skip=()):
+    """the generated families of all single-pass properties; quick: every stride-th program (offset by the seed)"""
+    out = []
+    for fam in G_PASS_FAMILIES:
+        if fam in skip:
+            continue
+        es = corpus_G(fam)
+        if tier == "quick":
+            es = es[seed % stride::stride]
+        out += es
+    return out
+
+
 # ------------------------------------------------------------------------------------------- task lists
 def base_task(e, enabled, V, tier, **kw):
     t = {"id": e["id"], "text": e["text"], "in": e.get("in"), "out": e.get("out"), "enabled": enabled, "V": V, "tier": tier,
@@ -98,11 +116,12 @@ def tasks_C05(tier, seed):
 def tasks_C06(tier, seed):
     rnd = random.Random(seed)
     tasks = []
-    for e in corpus_T(AUX_ONLY + ["regression"]) + corpus_G("C06"):
+    for e in corpus_T(AUX_ONLY + ["regression"]) + corpus_G("C06") + corpus_G_all(tier, seed, 3, skip=("C09", "C15", "C05")):
         cfgs = [AUX_ONLY]
-        if e["trait"] in AUX_ONLY:
-            rest = [t for t in AUX_ONLY if t != e["trait"]]
-            cfgs.append(sorted([e["trait"]] + rnd.sample(rest, 2)))
+        tr = e.get("trait") or FAM_TRAIT.get(e["id"].split("-")[1])
+        if tr in AUX_ONLY:
+            rest = [t for t in AUX_ONLY if t != tr]
+            cfgs.append(sorted([tr] + rnd.sample(rest, 2)))
         if tier == "thorough":
             for _ in range(4):
                 k = rnd.randint(2, 6)
@@ -117,9 +136,10 @@ def tasks_C01(tier, seed, only_opt=False, costs=False):
 
     rnd = random.Random(seed)
     tasks = []
-    entries = [e for e in corpus_T() if e["trait"] not in ("ast", "global", "dependency")] + corpus_G("C01")
+    entries = [e for e in corpus_T() if e["trait"] not in ("ast", "global", "dependency")] + corpus_G("C01") + corpus_G_all(tier, seed, 4)
     if only_opt:
-        entries = [e for e in corpus_T() + corpus_G("C02") + corpus_G("C12") + corpus_G("C13") + corpus_G("C15") if ":~" in e["text"] or "#minimi" in e["text"] or "#maximi" in e["text"]]
+        entries = [e for e in corpus_T() + corpus_G("C02") + corpus_G("C01") + corpus_G("C11") + corpus_G("C12") + corpus_G("C13") + corpus_G("C15") + corpus_G("C09") + corpus_G("C10") + corpus_G("C14") + corpus_G("C08")
+                   if ":~" in e["text"] or "#minimi" in e["text"] or "#maximi" in e["text"]]
     for e in entries:
         hs = [list(x) for x in head_sigs(e["text"])]
         cfgs = ["default", "all"]
@@ -137,14 +157,15 @@ def tasks_C01(tier, seed, only_opt=False, costs=False):
 
 def tasks_C04(tier, seed):
     tasks = []
-    entries = [e for e in corpus_T() if e["trait"] not in ("ast", "global", "dependency")] + corpus_G("C04")
+    entries = [e for e in corpus_T() if e["trait"] not in ("ast", "global", "dependency")] + corpus_G("C04") + corpus_G_all(tier, seed, 2)
     for e in entries:
         hs = [list(x) for x in head_sigs(e["text"])]
-        cfgs = ["all"] + ([[e["trait"]]] if e["trait"] in TRAITS else [])
+        tr = e.get("trait") or FAM_TRAIT.get(e["id"].split("-")[1])
+        cfgs = ["all"] + ([[tr]] if tr in TRAITS else []) + (["default"] if not e["id"].startswith("T-") else [])
         if tier == "thorough":
             cfgs += ["default", "none"]
         for c in cfgs:
-            tasks.append(base_task(dict(e, out=hs), c, "voc", tier, c04=True))
+            tasks.append(base_task(dict(e, out=hs, outs=None), c, "voc", tier, c04=True))
     return tasks
 
 
